@@ -1930,7 +1930,7 @@ pub fn run(ctx: &mut Ctx, profile: Profile) -> &'static str {
             gq(json!({"origin_vertex": 2, "destination_vertex": 0, "query_weight_estimate": null}), Expect::Ok, "odd_weight_estimate", None),
         ];
         run_case(ctx, fx, *pc, &b, simple(vec![None, Some(3)], 3), "corpus_weight_estimate", 20);
-        // non-object queries without any plugin (adb1ee2: they were answered with the placeholder request)
+        // non-object queries without any plugin (6b89952: they were answered with the placeholder request)
         let b = vec![
             gq(json!(5), Expect::Any, "non_object", None),
             gq(json!({"origin_vertex": 0, "destination_vertex": 3}), Expect::Ok, "valid_route", None),
@@ -1993,7 +1993,7 @@ pub fn run(ctx: &mut Ctx, profile: Profile) -> &'static str {
     }
     if let Some(i) = find("grid") {
         let (fx, pc) = &fixtures[i];
-        // adb1ee2: the empty array was flattened away without a response, a nested array was split into queries
+        // 6b89952: the empty array was flattened away without a response, a nested array was split into queries
         let b = vec![
             gq(json!([]), Expect::Any, "non_object", None),
             gq(json!({"origin_vertex": 0, "destination_vertex": 3}), Expect::Ok, "valid_route", None),
